@@ -71,7 +71,7 @@ def check(run):
         vals = [(p, b) for p in (PI, SIGMA, NO) for b in (0, NZ)] if polar else [(NO, NZ)]
         res = {}
         for p, b in vals:
-            pi = PathInterp(fn, SINKS, {'self._polarisation': p, 'b_magn': b}, evaluator=LsEval)
+            pi = PathInterp(fn, SINKS, {'self._polarisation': p, 'b_magn': b}, evaluator=LsEval, inline=_helpers(prog, ci))
             paths = pi.run()
             for path in paths:
                 path.env = None
@@ -81,6 +81,32 @@ def check(run):
     _r2(run, results)
     _r3(run, results, classes)
     _r45(run, gmod, smod)
+
+
+def _helpers(prog, ci):
+    """Private helpers a line shape may delegate its primitive calls to: module-level functions of the class's module and
+    methods of the class whose bodies (transitively) reach a primitive.  They are interpreted in place."""
+    cands = {}
+    for name, fn in ci.mod.functions.items():
+        if name not in SINKS:
+            cands[name] = fn
+    for k in prog.mro(ci):
+        for name, fn in k.methods.items():
+            if name != 'add_line':
+                cands.setdefault('self.' + name, fn)
+    reach = set()
+    changed = True
+    while changed:
+        changed = False
+        for name, fn in cands.items():
+            if name in reach:
+                continue
+            for c in ast.walk(fn):
+                if isinstance(c, ast.Call) and (dotted(c.func) in SINKS or dotted(c.func) in reach):
+                    reach.add(name)
+                    changed = True
+                    break
+    return {n: cands[n] for n in reach}
 
 
 def _is_null_path(path):
